@@ -723,8 +723,20 @@ func richLeaf(r *rng.R, sh corpusShape, f int) *expr {
 			return &v
 		}
 		e := &expr{Kind: "range", F: f, Lo: bound(), Hi: bound(), IncLo: r.Bool(), IncHi: r.Bool()}
-		if r.Chance(1, 3) { // both ends numbers
+		if r.Chance(1, 3) { // both ends numbers, often numbers that occur as values (the end itself is hit)
 			a, b := r.Range(0, 150)-20, r.Range(0, 150)-20
+			var nums []int
+			for _, v := range sh.pool {
+				if n, err := strconv.Atoi(v); err == nil && numRe.MatchString(v) {
+					nums = append(nums, n)
+				}
+			}
+			if len(nums) > 0 && r.Chance(2, 3) {
+				a = rng.Pick(r, nums)
+			}
+			if len(nums) > 0 && r.Chance(2, 3) {
+				b = rng.Pick(r, nums)
+			}
 			if a > b && r.Chance(3, 4) {
 				a, b = b, a
 			}
@@ -1042,6 +1054,27 @@ func runCorpus(r *rng.R, tmp string, idx int, sh corpusShape, nreq, depthMax int
 	reqs := make([]request, nreq)
 	for i := range reqs {
 		reqs[i] = randRequest(r, sh, depthMax)
+	}
+	// two requests aimed at the borders: a token of some document, [from,to] ending exactly at that document's MID
+	// (so that minLID / maxLID fall INSIDE the token's posting list: the clipping of inverseLIDs and of the sealed
+	// iterators' narrowLIDsRange is hit on both sides), both orders
+	for k := 0; k < 2 && len(corpus) > 0; k++ {
+		d := corpus[r.Intn(len(corpus))]
+		if len(d.Toks) == 0 {
+			continue
+		}
+		t := d.Toks[r.Intn(len(d.Toks))]
+		o := corpus[r.Intn(len(corpus))]
+		e := &expr{Kind: "lit", F: t.F, V: t.V}
+		if sh.rich && r.Bool() {
+			e = &expr{Kind: "glob", F: t.F, Terms: []term{{Text: t.V[:1]}, {Star: true}}}
+		}
+		q := request{Text: e.text(), E: e, Reverse: k == 1, WT: true, Limit: r.Range(1, len(corpus)+1)}
+		q.From, q.To = min(o.MID, d.MID), max(o.MID, d.MID)
+		if r.Bool() {
+			q.Hist = 1
+		}
+		reqs = append(reqs, q)
 	}
 	nb := min(max(1, sh.bulks), max(1, len(corpus)))
 	cuts := make([]int, nb)
